@@ -139,6 +139,43 @@ func runC09(c *Ctx) {
 				okArgs = isSrc && isFmt && core.IsNamed(fmtP.Type(), pkWire, "FormatCode") && oidPath == ".Oid"
 			}
 			R.Check(okArgs, "C09.R1", "Column.Write:encode-arguments", c.at(enc), "the value is encoded as the column's type in the requested format", "Encode(column.Oid, format, src, buf)", "Encode is not called with the column's OID, the format parameter and the source value")
+			// the appends may live in a helper that receives the encoded buffer (writeField(writer, value)): inside it the
+			// buffer is that parameter, and "Encode succeeded" is decided where the helper is called
+			abuf := buf
+			errDom := func(b *ssa.BasicBlock) bool { return anyDominates(nilEdges(eerr, true), b) }
+			{
+				has := false
+				for _, ci := range core.Calls(appFn) {
+					if writerMethod(ci) == "AddInt32" {
+						has = true
+					}
+				}
+				if !has && buf != nil {
+					for _, ci := range core.Calls(appFn) {
+						h := core.StaticCallee(ci)
+						if h == nil || !c.P.InPkg(h, "wire") || h.Blocks == nil {
+							continue
+						}
+						hasH := false
+						for _, hi := range core.Calls(h) {
+							if writerMethod(hi) == "AddInt32" {
+								hasH = true
+							}
+						}
+						if !hasH {
+							continue
+						}
+						for i, a := range ci.Common().Args {
+							if a == buf && i < len(h.Params) {
+								okSite := anyDominates(nilEdges(eerr, true), ci.Block())
+								appFn, abuf = h, h.Params[i]
+								errDom = func(*ssa.BasicBlock) bool { return okSite }
+								R.Analysed(fname(h))
+							}
+						}
+					}
+				}
+			}
 			// length operand: over all length appends, -1 is emitted exactly on the nil-buffer edge and len(buffer) otherwise
 			n := 0
 			okLen, okNull := false, false
@@ -149,7 +186,7 @@ func runC09(c *Ctx) {
 				case "AddInt32":
 					n++
 					lastLen = ci
-					if buf == nil || !anyDominates(nilEdges(eerr, true), ci.Block()) {
+					if abuf == nil || !errDom(ci.Block()) {
 						R.Fail("C09.R1", "Column.Write:append-after-encode-error", c.at(ci), "nothing is appended when encoding failed", "the length is appended on a path where Encode's error was not tested")
 					}
 					var ls []ssa.Value
@@ -163,36 +200,36 @@ func runC09(c *Ctx) {
 								for i, e := range ph.Edges {
 									if e == l {
 										pred := ph.Block().Preds[i]
-										if anyDominates(nilEdges(buf, true), pred) {
+										if anyDominates(nilEdges(abuf, true), pred) {
 											okNull, siteNull = true, true
 										}
-										for _, ne := range nilEdges(buf, true) { // the phi edge itself is the nil edge
+										for _, ne := range nilEdges(abuf, true) { // the phi edge itself is the nil edge
 											if ne.from == pred && ne.to() == ph.Block() {
 												okNull, siteNull = true, true
 											}
 										}
 									}
 								}
-							} else if anyDominates(nilEdges(buf, true), ci.Block()) {
+							} else if anyDominates(nilEdges(abuf, true), ci.Block()) {
 								okNull, siteNull = true, true
 							} else {
 								extra = "-1 outside the nil-buffer edge"
 							}
 							continue
 						}
-						if x, ok := core.IsLenOf(core.StripConv(l)); ok && x == buf {
+						if x, ok := core.IsLenOf(core.StripConv(l)); ok && x == abuf {
 							okLen = true
 							continue
 						}
 						extra = l.String()
 					}
 					// a site that can only emit len(buffer) must not be reachable with a nil buffer (it would announce 0 for NULL)
-					if !siteNull && buf != nil && !anyDominates(nilEdges(buf, false), ci.Block()) {
+					if !siteNull && abuf != nil && !anyDominates(nilEdges(abuf, false), ci.Block()) {
 						extra = "len(buffer) is appended on a path on which the buffer may be nil"
 					}
 				case "AddBytes":
 					n++
-					R.Check(ci.Common().Args[1] == buf, "C09.R1", "Column.Write:payload", c.at(ci), "the payload appended is exactly the buffer Encode returned", "AddBytes(buffer)", "the bytes appended are not Encode's result")
+					R.Check(ci.Common().Args[1] == abuf, "C09.R1", "Column.Write:payload", c.at(ci), "the payload appended is exactly the buffer Encode returned", "AddBytes(buffer)", "the bytes appended are not Encode's result")
 				}
 			}
 			if lastLen != nil {
